@@ -6,7 +6,7 @@ From FS Require Model.Walk Proofs.WalkP.
 From FS Require Import Sx Model.Path Model.Stat Model.Tree Model.Pattern Model.FilterWalk
   Model.Hardlinks Model.Validator Model.Diff Model.SenderView
   Proofs.Lex Proofs.PathP Proofs.PatternP Proofs.FilterP Proofs.PruneP Proofs.RefP Proofs.NaiveRefP
-  Proofs.FlatRefP Proofs.ValidatorP Proofs.DiffP Proofs.HardlinksP Proofs.RefValidP.
+  Proofs.FlatRefP Proofs.ValidatorP Proofs.DiffP Proofs.HardlinksP Proofs.RefValidP Proofs.TrimP.
 Import ListNotations.
 Open Scope bool_scope.
 
@@ -306,33 +306,36 @@ Proof.
 Qed.
 End RefFiles.
 
-(* ---------- the filtered walk is the reference over the incremental verdict ---------- *)
+(* ---------- the filtered walk is the reference filter of the trimmed view ---------- *)
 Section Sender.
 Variable pmatch : bytes -> bytes -> bool.
 Variable mapfn : bytes -> stat -> mres * stat.
 Variable c : cfg.
-Hypothesis Hsem : prefix_semantics pmatch.
-Hypothesis Hsafe : cfg_star_safe c = true.
 Hypothesis Hshape : map_keeps_shape mapfn.
 Hypothesis Hdirs : map_never_drops_dirs mapfn.
 
 Notation fw := (filter_walk pmatch mapfn c).
 Notation sv := (sender_view pmatch mapfn c).
 
-Lemma fw_reference view : wf_source view = true ->
-  fw view = reference (keep_incr pmatch c) mapfn view.
-Proof.
-  intros Hwf. apply wf_source_wf_view in Hwf.
-  rewrite (prune_unobservable_proof pmatch mapfn Hsem c Hsafe view Hwf).
-  apply filter_walk_reference_proof; auto.
-Qed.
+Lemma fw_trim view : wf_source view = true ->
+  fw view = reference (keep_incr pmatch c) mapfn (trim pmatch c view).
+Proof. apply filter_walk_trim_reference. Qed.
 
 Lemma fw_wf_listing view : wf_source view = true ->
   wf_listing (fw view) /\ (forall s, In s (fw view) -> ok_path (st_path s) = true).
-Proof. intros Hwf. rewrite (fw_reference view Hwf). apply reference_wf_listing; auto. Qed.
+Proof.
+  intros Hwf. rewrite (fw_trim view Hwf). apply reference_wf_listing; auto. apply trim_wf_source; auto.
+Qed.
+
+Lemma fw_rsub_gen (K : stat -> stat -> Prop) (HK : forall p s, K (snd (mapfn p s)) s) view :
+  wf_source view = true -> rsub (fun s' (e : Tree.entry) => K s' (fst e)) (fw view) (walk_root view).
+Proof.
+  intros Hwf. rewrite (fw_trim view Hwf).
+  eapply rsub_trans_eq; [apply (reference_rsub_gen (keep_incr pmatch c) mapfn K HK)|apply trim_walk_root].
+Qed.
 
 Lemma fw_rsub view : wf_source view = true -> rsub keqe (fw view) (walk_root view).
-Proof. intros Hwf. rewrite (fw_reference view Hwf). apply reference_rsub; auto. Qed.
+Proof. exact (fw_rsub_gen keq Hshape view). Qed.
 
 Lemma fw_wf_links view : wf_source view = true -> source_links_ok view = true -> wf_links (fw view) = true.
 Proof. intros Hwf Hl. eapply wf_links_rsub; [apply fw_rsub; auto|exact Hl]. Qed.
@@ -361,7 +364,42 @@ Proof.
   - unfold sender_view. apply reset_links_valid_proof. apply fw_wf_links; auto.
 Qed.
 
+(* ---------- a reported non-directory can be opened ----------
+   no hypothesis on the matcher, none on what the map function drops: the entry is selected by
+   the incremental verdict, which under no-late-shadow is the verdict Open computes *)
+Lemma all_paths_node_in (Q : bytes -> bool) : forall n dir, all_paths_node Q dir n = true ->
+  forall e : Tree.entry, In e (walk_node dir n) -> Q (st_path (fst e)) = true.
+Proof.
+  induction n as [name st ct kids IH] using node_ind2. intros dir H e Hin.
+  cbn [all_paths_node] in H. apply andb_true_iff in H. destruct H as [HQ Hk].
+  rewrite walk_node_eq in Hin. destruct Hin as [<-|Hin]; [exact HQ|].
+  destruct (walk_forest_in _ _ _ Hin) as (k & Hkin & Hek).
+  rewrite forallb_forall in Hk. rewrite Forall_forall in IH. eapply IH; eauto.
+Qed.
+
+Lemma all_paths_in (Q : bytes -> bool) view : all_paths Q view = true ->
+  forall e : Tree.entry, In e (walk_root view) -> Q (st_path (fst e)) = true.
+Proof.
+  unfold all_paths. intros H e Hin. destruct (walk_forest_in _ _ _ Hin) as (k & Hkin & Hek).
+  rewrite forallb_forall in H. eapply all_paths_node_in; eauto.
+Qed.
+
+Lemma reported_file_opens view : wf_source view = true -> all_paths (nls_path pmatch c) view = true ->
+  forall s, In s (fw view) -> st_is_dir s = false -> filter_open pmatch c (st_path s) = true.
+Proof.
+  intros Hwf Hn s Hin Hnd.
+  destruct (rsub_in _ _ _ (fw_rsub view Hwf) s Hin) as (e & He & Hk).
+  pose proof (all_paths_in _ view (all_paths_keep_view pmatch c view (wf_source_strict view Hwf) Hn) e He) as Heq.
+  cbv beta in Heq. apply eqb_prop in Heq. rewrite <- (proj1 Hk) in Heq.
+  unfold filter_open. rewrite <- Heq.
+  rewrite (fw_trim view Hwf) in Hin. eapply reference_nondir_selected; eauto.
+Qed.
+
 (* ---------- walk and Open agree on the files of the source ---------- *)
+Section Naive.
+Hypothesis Hsem : prefix_semantics pmatch.
+Hypothesis Hsafe : cfg_star_safe c = true.
+
 Lemma fw_naive_reference view : wf_source view = true -> all_paths (nls_path pmatch c) view = true ->
   fw view = reference (keep_naive pmatch c) mapfn view.
 Proof.
@@ -375,14 +413,6 @@ Proof.
   unfold source_file. intros H. apply existsb_exists in H. destruct H as (e & He & Hx).
   apply andb_true_iff in Hx. destruct Hx as [H1 H2]. apply bytes_eqb_eq in H1. apply negb_true_iff in H2.
   exists e. auto.
-Qed.
-
-(* a reported non-directory entry can be opened (no hypothesis on what the map function drops) *)
-Lemma reported_file_opens view : wf_source view = true -> all_paths (nls_path pmatch c) view = true ->
-  forall s, In s (fw view) -> st_is_dir s = false -> filter_open pmatch c (st_path s) = true.
-Proof.
-  intros Hwf Hn s Hin Hnd. rewrite (fw_naive_reference view Hwf Hn) in Hin.
-  unfold filter_open. eapply reference_nondir_selected; eauto.
 Qed.
 
 Theorem walk_open_agree_proof view :
@@ -408,5 +438,6 @@ Proof.
     assert (Hsd : st_is_dir s = false) by (rewrite (keq_dir _ _ Hk); exact Hnd).
     pose proof (reference_nondir_selected _ _ Hshape view s Hs Hsd) as X. rewrite Eq in X. congruence.
 Qed.
+End Naive.
 
 End Sender.
